@@ -130,7 +130,7 @@ Section EyeValue.
                                      (if Nat.eqb k k' then one else zero))).
       + apply (sum_upto_ext R zero add). intros k' Hk'.
         rewrite !(atoms_val_app R zero one add mul SR). rewrite HvalA, HvalB. cbn [Sem.atoms_val prod_over].
-        rewrite sr_mul_1_r'. match goal with |- ?G => idtac G end. unfold atom_val at 3. rewrite Hw3. cbn [map]. rewrite Heye.
+        rewrite sr_mul_1_r'. unfold atom_val. rewrite Hw3. cbn [map]. rewrite Heye.
         assert (E1 : upd (upd r cw k) w k' cw = k) by (unfold upd; rewrite Nat.eqb_refl; destruct (Nat.eqb_spec cw w); [contradiction|reflexivity]).
         assert (E2 : upd (upd r cw k) w k' w = k') by (unfold upd; rewrite Nat.eqb_refl; reflexivity).
         rewrite E1, E2. f_equal. f_equal.
